@@ -163,8 +163,11 @@ def h_store(cfg):
                     r['ev'].cancel()
                 r['cancelled'] = True
                 cover('cancelled-pending')
+        account()
 
-    def after_step():
+    def account():
+        """book the grants that became visible since the last call (called after every operation of the issuing process and
+        after every kernel step: within one step a get may be served before later puts of the same burst are accepted)"""
         check('c07.store-bounded', le(len(st.items), cap), len(st.items))
         new_puts = [r for r in reqs if r['kind'] == 'put' and not r['granted'] and r['ev'].triggered]
         new_gets = [r for r in reqs if r['kind'] == 'get' and not r['granted'] and r['ev'].triggered]
@@ -208,6 +211,9 @@ def h_store(cfg):
                         cover('filter-overtake')
         check('c07.items-are-the-held', len(st.items) == len(held) and
               all(any(a is b for b in st.items) for a in held), (len(st.items), len(held)))
+
+    def after_step():
+        account()
         if env.peek() == INF or env.peek() > env.now:
             pend_put = [r for r in reqs if r['kind'] == 'put' and not r['granted'] and not r['cancelled']]
             pend_get = [r for r in reqs if r['kind'] == 'get' and not r['granted'] and not r['cancelled']]
@@ -269,6 +275,18 @@ def jobs(tier, seed):
                 continue
             js.append({'harness': 'store', 'weight': 20 if kind == 'store' else 60,
                        'cfg': {'ops': ops, 'sorts': sorts, 'kind': kind}})
+    if tier != 'quick':
+        # all histories of five operations (each on the container and on one store kind in turn), six in two bursts
+        for si, ops in enumerate([list(p) for p in itertools.product(['put', 'get'], repeat=5)]):
+            sorts = 'int' if si % 2 else 'real'
+            js.append({'harness': 'container', 'weight': 100, 'cfg': {'ops': ops, 'sorts': sorts, 'asort': 'int' if si % 3 else 'real'}})
+            kind = ('store', 'prio', 'filter')[si % 3]
+            js.append({'harness': 'store', 'weight': 150, 'cfg': {'ops': ops, 'sorts': sorts, 'kind': kind}})
+        for ops in (['put', 'put', 'get', 'put', 'get', 'get'], ['get', 'get', 'put', 'get', 'put', 'put'],
+                    ['put', 'get', 'get', 'put', 'put', 'get']):
+            js.append({'harness': 'container', 'weight': 150, 'cfg': {'ops': ops, 'burst': [0, 1, 1, 0, 1, 1], 'sorts': 'int'}})
+            for kind in ('store', 'prio', 'filter'):
+                js.append({'harness': 'store', 'weight': 200, 'cfg': {'ops': ops, 'burst': [0, 1, 1, 0, 1, 1], 'sorts': 'int', 'kind': kind}})
     # same-step bursts
     js.append({'harness': 'container', 'cfg': {'ops': ['put', 'put', 'get', 'get'], 'burst': [0, 1, 1, 1], 'sorts': 'int'},
                'weight': 30})
@@ -305,7 +323,7 @@ META = {
     'bounds': {'quick': 'histories of 3 operations (put/get) plus one cancel of an earlier pending request, issued at symbolic, possibly '
                         'coinciding instants; Container capacity/init/amounts symbolic Int or Real; Store/PriorityStore/FilterStore capacity '
                         'symbolic Int >= 1, priorities and filter thresholds symbolic Int',
-               'thorough': 'histories of 4 operations plus a cancel'},
+               'thorough': 'histories of 4 operations plus a cancel; all put/get histories of 5 operations; 6 operations in two bursts'},
     'assumptions': ['requests are issued by one process that does not wait for them (several may be pending at once)',
                     'PriorityStore: order among equal priorities is not asserted', 'filters are of the form x >= threshold'],
     'stubs': [],
@@ -316,5 +334,5 @@ MANIFEST = {
     'level_text': 'Bounded model checking by symbolic execution of the real Container/Store/PriorityStore/FilterStore with a step '
                   'monitor: range, conservation, FIFO / smallest-first / first-match delivery and the no-stranded-request rule at every '
                   'quiescent point, for symbolic amounts, capacities, priorities, thresholds and instants.',
-    'level_note': 'Trusted: z3, symx proxies (validated by concrete witness replay); histories <= 5 operations.',
+    'level_note': 'Trusted: z3, symx proxies (validated by concrete witness replay); histories <= 6 operations.',
 }
